@@ -101,7 +101,8 @@ TEXT = {
             'route x 6 methods, plus ~110 (partly state-dependent) feature '
             'probes at every setting (body members of every allocation-'
             'writing route, headers of every readable route with and '
-            'without results).'),
+            'without results); the versions below a feature are probed a '
+            'second time after the versions that have it.'),
     'C15': ('grammar-based request mutation + response well-formedness '
             'monitor', 'pv-seq', '5/C15',
             'Hundreds of thousands of mutated requests; every response is '
